@@ -4,7 +4,7 @@
 //        wave = comma separated behaviours, one request each, all requests of a wave issued at once; request i asks
 //        for /<i>/<behaviour> and the server answers with body "resp-<i>":
 //          a at once, d after 60 ms, b byte-dribbled, c chunked, x with Connection: close and then closes,
-//          n never, h half an answer and then nothing, l late (time-out + 300 ms), e delayed 250 ms, g delayed 70% of the time-out (used in wave 2 to be in flight when a late response arrives)
+//          n never, h half an answer and then nothing, H the whole head and most of the body and then nothing, l late (time-out + 300 ms), e delayed 250 ms, g delayed 70% of the time-out (used in wave 2 to be in flight when a late response arrives)
 //        wave 2 is issued <gap ms> (default time-out + 100 ms) after wave 1
 //     -> K r=<outcome per request: F<i of the body received> | R rejected | P still pending> twice=<promises settled twice>
 //            accepted=<connections the server accepted in total> limit=<configured connections per host>
@@ -100,7 +100,7 @@ struct Server
             std::string id = head.substr(s1 + 1, s2 - s1 - 1);
             char b         = head[s2 + 1];
             std::string body = "resp-" + id;
-            std::string plain = "HTTP/1.1 200 OK\r\nContent-Length: " + std::to_string(body.size()) + "\r\n\r\n" + body;
+            std::string plain = "HTTP/1.1 200 OK\r\nX-Id: " + id + "\r\nContent-Length: " + std::to_string(body.size()) + "\r\n\r\n" + body;
             auto alive = [&]() {
                 char ch;
                 ssize_t k = ::recv(c, &ch, 1, MSG_PEEK | MSG_DONTWAIT);
@@ -153,6 +153,12 @@ struct Server
             case 'h':
                 // half of the answer, then nothing more: the client's time-out interrupts a partially received response
                 pv::send_all(c, plain.substr(0, plain.size() / 2));
+                while (!stop && !gone)
+                    nap(50);
+                return;
+            case 'H':
+                // the whole head (with this request's X-Id header) and a part of the body, then nothing more
+                pv::send_all(c, plain.substr(0, plain.size() - 3));
                 while (!stop && !gone)
                     nap(50);
                 return;
@@ -241,6 +247,10 @@ static std::string handle(const std::string& line)
                     std::lock_guard<std::mutex> g(g_out.m);
                     std::string body = rsp.body();
                     g_out.r[i]       = body.rfind("resp-", 0) == 0 ? "F" + body.substr(5) : "F?";
+                    // the headers must be those of the same response as the body
+                    auto xid = rsp.headers().tryGetRaw("X-Id");
+                    if (xid && body.rfind("resp-", 0) == 0 && xid->value() != body.substr(5))
+                        g_out.r[i] += "(X-Id:" + xid->value() + ")";
                     ++g_out.settles[i];
                 },
                 [i](std::exception_ptr) {
